@@ -37,9 +37,10 @@ Print Assumptions backoff_is_the_go_loop.
    a fuelled Fixpoint, uint32 generation counter with wrap, int64 ttl), for
    every valid configuration and every uint32 streak, on any iteration budget
    of ten or more. *)
-Theorem backoff_is_the_translated_go_function : forall c, cfg_valid c -> forall fuel s,
+Theorem backoff_is_the_translated_go_function : forall c, cfg_valid c -> forall gc : T_FailureCache,
+  T_FailureCache_initialTTL gc = c_init c -> T_FailureCache_maxTTL gc = c_max c -> forall fuel s,
   (10 <= fuel)%nat -> (s < 4294967296)%N ->
-  go_FailureCache_backoff fuel (mk_T_FailureCache (c_init c) (c_max c)) s = Some (backoff c s).
+  go_FailureCache_backoff fuel gc s = Some (backoff c s).
 Proof. exact gen_backoff. Qed.
 Print Assumptions backoff_is_the_translated_go_function.
 
